@@ -59,6 +59,7 @@ pub struct Local {
     pub empty_text_ignored: u64,
     pub errpos_as_documented: u64,
     pub errpos_other: u64,
+    pub buffered: u64,
     pub cfg_seen: [u64; 128],
     pub by_src: [u64; 9],
 }
@@ -71,6 +72,7 @@ impl Default for Local {
             empty_text_ignored: 0,
             errpos_as_documented: 0,
             errpos_other: 0,
+            buffered: 0,
             cfg_seen: [0; 128],
             by_src: [0; 9],
         }
@@ -111,6 +113,7 @@ impl Local {
         ctx.add("real_empty_text_events_ignored", self.empty_text_ignored);
         ctx.add("observation.error_position_at_construct_start", self.errpos_as_documented);
         ctx.add("observation.error_position_elsewhere", self.errpos_other);
+        ctx.add("cases_also_on_buffered_source", self.buffered);
         for (i, n) in self.cfg_seen.iter().enumerate() {
             if *n > 0 {
                 ctx.add(&format!("cfg.{:03}", i), *n);
@@ -142,6 +145,28 @@ fn obs_match(real: &Obs, model: &Obs, strings_exact: bool) -> bool {
 /// Lock-step comparison. Returns Err(detail) on the first discrepancy.
 pub fn lockstep(input: &[u8], cfg: &CfgHist, loc: &mut Local) -> Result<(), String> {
     let mut r = Reader::from_reader(input);
+    lockstep_with(input, cfg, loc, &mut |c| {
+        apply_cfg(r.config_mut(), c);
+        let res = r.read_event();
+        (result_obs(&res), r.error_position())
+    })
+}
+
+/// The same comparison for the buffering reader over a source that delivers the input in pieces
+/// (the first piece holds at least 4 bytes: the documented one-piece encoding sniff).
+pub fn lockstep_buffered(input: &[u8], cfg: &CfgHist, piece: usize, loc: &mut Local) -> Result<(), String> {
+    let mut r = Reader::from_reader(crate::sources::ChunkedRead::new(input, crate::sources::cuts_for_piece(input.len(), piece, 4)));
+    let mut buf = Vec::new();
+    lockstep_with(input, cfg, loc, &mut |c| {
+        apply_cfg(r.config_mut(), c);
+        buf.clear();
+        let res = r.read_event_into(&mut buf);
+        (result_obs(&res), r.error_position())
+    })
+    .map_err(|d| format!("buffered source, pieces of {}: {}", piece, d))
+}
+
+fn lockstep_with(input: &[u8], cfg: &CfgHist, loc: &mut Local, next: &mut dyn FnMut(u8) -> (Obs, u64)) -> Result<(), String> {
     let mut m = TokModel::new(input);
     let limit = call_bound(input.len()) + 2;
     let mut call: u32 = 0;
@@ -149,9 +174,7 @@ pub fn lockstep(input: &[u8], cfg: &CfgHist, loc: &mut Local) -> Result<(), Stri
     let mut result = Ok(());
     while (call as usize) < limit {
         let c = cfg.at(call);
-        apply_cfg(r.config_mut(), c);
-        let res = r.read_event();
-        let real = result_obs(&res);
+        let (real, real_errpos) = next(c);
         call += 1;
         if real.is_empty_text() && m.accept_f6_empty_text(c) {
             // the one known source of empty Text events (finding F6, judged and listed by C16)
@@ -177,7 +200,7 @@ pub fn lockstep(input: &[u8], cfg: &CfgHist, loc: &mut Local) -> Result<(), Stri
         // error_position() is documented to point at the '<' of the offending construct, but C01
         // does not speak about it: a difference is counted as an observation, not judged
         if matches!(real, Obs::Err(_)) && s.err_pos != u64::MAX {
-            if r.error_position() == s.err_pos {
+            if real_errpos == s.err_pos {
                 loc.errpos_as_documented += 1;
             } else {
                 loc.errpos_other += 1;
@@ -208,10 +231,15 @@ pub fn check_case(ctx: &mut Ctx, loc: &mut Local, input: &[u8], cfg: &CfgHist, s
     loc.cfg_seen[(cfg.base & 0x7F) as usize] += 1;
     loc.by_src[src as usize] += 1;
     let r = guarded(|| lockstep(input, cfg, loc));
-    let r = match r {
+    let mut r = match r {
         Ok(r) => r,
         Err(p) => Err(p),
     };
+    // the sampled inputs also through the buffering reader
+    if r.is_ok() && !src.exhaustive() {
+        loc.buffered += 1;
+        r = guarded(|| lockstep_buffered(input, cfg, 1 + (h % 3) as usize, loc)).unwrap_or_else(Err);
+    }
     if let Err(d) = r {
         ctx.violation(case_json(input, cfg), d);
         return !ctx.full();
